@@ -340,12 +340,81 @@ def c20_none_argument():
         return True
 
 
+# ------------------------------------------------------------------------------------------------- session 4 (reported by seeding agents)
+def _S(x):
+    return ("s", x)
+
+
+def _C(x):
+    return ("c", x)
+
+
+def c01_range_string_order():
+    return _differs('?"hello"', _S("helo")) or _differs('?"cab"', _S("cab"))
+
+
+def c01_amend_kinds():
+    return (_differs('[1 2 3]:=0.5,1', [("f", 1.0), ("f", 0.5), ("f", 3.0)]) or _differs('[[1 2] [3 4]]:=9,1', [_i(1, 2), ("i", 9)])
+            or _differs('[1 2 3]:="a",1', [("i", 1), _S("a"), ("i", 3)]))
+
+
+def c01_find_nested():
+    return _differs('[[1 2] [3 1]]?1', []) or _differs('[[1 2] [3 1]]?[3 1]', _i(1))
+
+
+def c01_shape_ragged():
+    return _differs('^[1 [2]]', _i(2)) or _differs('^[[1] [2 3]]', _i(2)) or _differs('^["ab" "c"]', _i(2))
+
+
+def c01_group_rows():
+    return _differs('=[[1 2] [1 2]]', [_i(0, 1)]) or _differs('=[[1 2] [3 4] [1 2]]', [_i(0, 2), _i(1)])
+
+
+def c01_grade_lists():
+    return (_differs('<[[1 5] [2 0]]', _i(0, 1)) or _differs('<[[1 [2] 3] [1 [4] 0]]', _i(0, 1))
+            or _differs('>[[2 2] [2 1] [1 9]]', _i(0, 1, 2)))
+
+
+def c02_each_left_atom():
+    return _differs('1+:\\2', ("i", 3)) or _differs('1-:/2', ("i", 1))
+
+
+def c02_over_shortcuts():
+    return _differs('%/[1 0]', ("o", "KGUndefined")) or _differs('&/[[1 2] [3]]', _i(1, 2))
+
+
+def c02_scan_neutral_string():
+    return _differs('0{x+@y}\\"abc"', _i(0, 1, 2, 3))
+
+
+def c02_iterate_numpy_count():
+    # in a child process with a hard limit: the defect is a loop that never ends (and that swallows an alarm raised inside the verb)
+    import subprocess
+    code = ("from klongpy import KlongInterpreter as K; import sys; "
+            "sys.exit(0 if K()('(+/[1 1]){x+1}:*0') == 2 else 1)")
+    try:
+        return subprocess.run([sys.executable, "-W", "ignore", "-c", code], timeout=30, capture_output=True).returncode != 0
+    except subprocess.TimeoutExpired:
+        return True
+
+
+def c02_each2_ragged():
+    return _differs("[1 2]{x,!y}'[1 2]", [_i(1, 0), _i(2, 0, 1)])
+
+
+
 PROBES = {
     "C01/split-near-equal": c01_split, "C01/rotate-matrix-flattens": c01_rotate, "C01/reverse-atom-raises": c01_reverse_atom,
     "C01/format-list-recursion": c01_format_list, "C01/first-of-string-is-string": c01_first_string, "C01/max-nested": c01_max_nested,
     "C01/min-nested": c01_min_nested, "C01/remainder-nested": c01_rem_nested, "C01/take-matrix-overshoot": c01_take_matrix,
     "C01/group-order": c01_group_order, "C01/match-integers-with-tolerance": c01_match_int,
     "C01/list-cells-in-rectangular-literal": c01_list_cells,
+    "C01/range-string-sorted": c01_range_string_order, "C01/amend-casts-and-flattens": c01_amend_kinds,
+    "C01/find-atom-in-list-of-lists": c01_find_nested, "C01/shape-ragged-raises": c01_shape_ragged,
+    "C01/group-matrix-elementwise": c01_group_rows, "C01/grade-lists-by-maximum": c01_grade_lists,
+    "C02/each-left-right-atom": c02_each_left_atom, "C02/over-shortcuts-divide-min-max": c02_over_shortcuts,
+    "C02/scan-over-neutral-string": c02_scan_neutral_string, "C02/iterate-numpy-count-hangs": c02_iterate_numpy_count,
+    "C02/each2-ragged-results": c02_each2_ragged,
     "C02/over-single-char-string": c02_over_char, "C02/string-operands-as-one-letter-strings": c02_string_chars,
     "C03/projection-of-projection-hole-order": c03_projection_order, "C03/dot-f-loses-locals": c03_dotf_locals,
     "C04/parse-cache-skips-module-switch": c04_module_cache,
